@@ -14,6 +14,7 @@ SSeq(S) == SetToSortSeq(S, <)
 Busy == {t \in Threads : wait[t] # None}
 Holds(w, v) == CASE w.kind = "below" -> v < w.th
                  [] w.kind = "above" -> v > w.th
+                 [] w.kind = "upd" -> FALSE      \* an Update that is held before it takes effect (see UpdateHold): no value releases it
                  [] OTHER -> TRUE
 
 Init == cfg \in Cfgs /\ value = 0 /\ wait = [t \in Threads |-> None] /\ ev = [op |-> "reset", cfg |-> cfg]
@@ -34,6 +35,15 @@ Do(s0) ==
     [] s.op = "Update" ->   \* returns the new value
          /\ UNCHANGED cfg /\ s.t \notin Busy /\ value + s.d \in MinV..MaxV
          /\ value' = value + s.d /\ wait' = Wake(value') /\ Out(s, value', {s.t} \cup Woken(value'), value', wait')
+    [] s.op = "UpdateHold" ->   \* Update(d) is called and held at the yield point before the value lock: nothing has happened yet
+         /\ UNCHANGED <<cfg, value>> /\ s.t \notin Busy
+         /\ wait' = [wait EXCEPT ![s.t] = [kind |-> "upd", th |-> s.d]] /\ Out(s, 0, {}, value, wait')
+    [] s.op = "UpdateGo" ->     \* the held Update goes on: it takes effect now, on whatever the value has become meanwhile,
+                                \* and wakes every waiter whose condition holds then
+         /\ UNCHANGED cfg /\ wait[s.t].kind = "upd" /\ value + wait[s.t].th \in MinV..MaxV
+         /\ value' = value + wait[s.t].th
+         /\ wait' = [t \in Threads |-> IF t = s.t \/ (wait[t] # None /\ Holds(wait[t], value')) THEN None ELSE wait[t]]
+         /\ Out(s, value', {s.t} \cup Woken(value'), value', wait')
     [] s.op = "Get" ->
          /\ UNCHANGED <<cfg, value, wait>> /\ s.t \notin Busy /\ Out(s, value, {s.t}, value, wait)
     [] s.op \in {"WaitIsBelow", "WaitIsAbove"} ->
@@ -49,6 +59,7 @@ Do(s0) ==
               ELSE wait' = [wait EXCEPT ![s.t] = [kind |-> "below", th |-> 1]] /\ Out(s, 0, {}, value, wait')
 
 Stimuli == [op : {"Set"}, t : Threads, v : MinV..MaxV] \cup [op : {"Update"}, t : Threads, d : {-2, -1, 0, 1, 2}]
+           \cup [op : {"UpdateHold"}, t : Threads, d : {-1, 1}] \cup [op : {"UpdateGo"}, t : Threads]
            \cup [op : {"Get", "WaitIsZero"}, t : Threads] \cup [op : {"WaitIsBelow", "WaitIsAbove"}, t : Threads, th : MinV..MaxV]
 Next == \E s \in Stimuli : Do(s)
 Spec == Init /\ [][Next]_vars
